@@ -29,6 +29,8 @@ def glue(spec):
         body += "    vmon::names::roundtrip(m, &samples, &make, &printers, &parse, Some(&ser), %s);\n" % bool_slice(nontrivial)
         for i in idx:
             v = spec.variants[i]
+            if v.ident.startswith("r#") and not v.serialize and v.to_string is None:
+                continue     # how a raw identifier is spelled is not pinned by the property; only the round trip is
             body += "    vmon::names::check_set(m, \"serializations\", \"get_serializations\", %s, strum::EnumMessage::get_serializations(&%s), %s, %s);\n" % (
                 rs_str(v.ident), v.ctor(spec.path(), v.default_exprs()), str_slice(model.spellings(v, spec.serialize_all)), "true" if nontrivial[i] else "false")
     else:
@@ -74,7 +76,7 @@ def check(run):
     for i in range(4000 if thorough else 700):
         ders = ["EnumString"] + DERIVE_SETS[i % 4] + (["EnumMessage"] if i % 3 else [])
         gp = (None, None, "T", "N", "Tw", "Tdef") if "IntoStaticStr" in ders else (None, None, "T", "a", "aT", "N", "Tw", "TNdef")
-        specs.append(strgen.build(r, "R%d" % i, ders, generics_pool=gp, n=r.choice([1, 2, 3, 4, 5, 6, 8]), allow_braces=True))
+        specs.append(strgen.build(r, "R%d" % i, ders, generics_pool=gp, n=r.choice([1, 2, 3, 4, 5, 6, 8]), allow_braces=True, raw_bare=True))
     units = [shards.Unit("u_" + s.name.lower(), glue(s), meta={"enum_src": s.render()}, sig=s.signature(), head=strgen.CAPTURE_HEAD) for s in specs]
     run.rule = RULE
     samples = standard_flow(run, units, deps["std"], vmon, profiles=("debug",), tag="c02")
